@@ -277,6 +277,28 @@ MostSpecific(q, B, r) ==
   /\ r # NotFound => \E i \in 1..4 : c[i] = r /\ \A j \in 1..(i - 1) : Key(c[j]) \notin B
   /\ r = NotFound => \A i \in 1..4 : Key(c[i]) \notin B
 
+(*     Entry keys with a FOLDER part: the query c/RT/role/x/y.  At each of   *)
+(*     the four candidate levels the store has one of eight shapes: the      *)
+(*     folder name x is absent / a plain entry / a folder, the leaf name y   *)
+(*     is absent / an entry BESIDE x / an entry INSIDE x.  The entry exists   *)
+(*     at a level exactly when the key x/y is stored there (YamlSource.Exists *)
+(*     walks the path through folders only; ConsulSource.Exists reads the     *)
+(*     exact key), whatever bears the names x and y next to it.              *)
+FldLevels == {"Pr", "Ar", "Pa", "Aa"}
+FldRt(k) == IF k \in {"Pr", "Pa"} THEN "PHYSICS" ELSE "ANY"
+FldRole(k) == IF k \in {"Pr", "Ar"} THEN "r" ELSE "any"
+FldEntry == "x/y"
+FldKeys(sh) == CASE sh = 1 -> {"x"}            \* x a plain entry
+                 [] sh = 2 -> {"x", "y"}       \* x a plain entry, y beside it
+                 [] sh = 3 -> {"y"}            \* only y
+                 [] sh = 4 -> {"x/z"}          \* x a folder without y
+                 [] sh = 5 -> {"x/y"}          \* x a folder holding y: THE ENTRY
+                 [] sh = 6 -> {"x/y", "y"}     \* ... and a y beside the folder
+                 [] sh = 7 -> {"x/z", "y"}     \* x a folder without y, y beside it
+                 [] OTHER  -> {}               \* 0: nothing
+FldB(L) == {<<FldRt(k), FldRole(k)>> : k \in {j \in FldLevels : FldEntry \in FldKeys(L[j])}}
+FldQ(k) == [comp |-> "c", rt |-> FldRt(k), role |-> FldRole(k), entry |-> FldEntry]
+
 PathStr(q) == q.comp \o "/" \o q.rt \o "/" \o q.role \o "/" \o q.entry
 PayloadOf(q) == "cfg:" \o PathStr(q)     \* what the driver stores under a key
 
